@@ -178,7 +178,7 @@ Definition run_newboxed (p : profile) (h : hkind) (hdr : list byte) (slices : li
   [ line "new_boxed"
       (sRes (fun img =>
                let total := stored_size h (slice img 0 (hsize h)) in
-               "sov=" ++ sN (len img) ++ " hdr=" ++ sBytes (slice img 0 (hsize h))
+               "sov=" ++ sN (len img) ++ " plen=" ++ sN (total - hsize h) ++ " hdr=" ++ sBytes (slice img 0 (hsize h))
                ++ " content=" ++ sBytes (slice img (hsize h) (total - hsize h))
                ++ " alloc=" ++ sN (len img) ++ ",8 dealloc=" ++ sN (len img) ++ ",8") r) ].
 
